@@ -8,7 +8,7 @@ FINISH = dict(level='proof',
                         'nonce functions, every single-bit flip of honest 162-byte strings, scalar re-encodings and invalid points; the '
                         'encrypt -> verify -> decrypt -> recover pipeline of the implementation is additionally checked end to end',
               trusted=TRUSTED_COMMON + ['completeness (encrypt => verify, decrypt/recover inverse) is NOT proved (needs the group law); it is checked on every generated honest case: the implementation must return the values predicted by the model and by an independent Python computation',
-                                        'rejection of a DLEQ response s >= n has no constructible witness with a valid proof on the real curve (needs a hash preimage): proved for the model, sampled only on invalid proofs'])
+                                        'rejection of a DLEQ response s >= n has no constructible witness with a valid proof on the real curve (needs a hash preimage): proved for the model; observed on the repository\'s own order-13 test group (harness built with -DEXHAUSTIVE_TEST_ORDER=13, model instantiated with that group), where valid proofs re-encoded as s + 13*j exist'])
 
 def runners(chk):
     impl = vlib.build_impl(chk.dir)
@@ -306,6 +306,49 @@ def pipeline(chk, g, impl):
         g.recover(rr, ss, sig, Y, 'pipeline_recover', '#1 ' + h32(y))
         g.recover(rr, N - ss, sig, Y, 'pipeline_recover_negated_s', '#1 ' + h32(y))
 
+def gen_small_group(chk):
+    """cases for the harness built with -DEXHAUSTIVE_TEST_ORDER=13 and the model instantiated with that group:
+       valid adaptor signatures whose scalars are re-encoded as v + 13*j (not constructible on the real curve)"""
+    r = chk.rng; sg = SmallGroup(); n = sg.n; cases = []; expect = {}
+    def add(line, cls, exp=None):
+        if exp is not None: expect[len(cases)] = exp
+        cases.append((line, cls))
+    def enc(v):     # a random 32-byte re-encoding v + 13*j > v
+        j = r.choice([1, 2, r.bits(8) + 1, r.bits(64) + 1, r.bits(200) + 1, (TOP - v) // n])
+        return v + n * j
+    for d in range(1, n):
+        for y in (r.sample if hasattr(r, 'sample') else (lambda l, k: [r.choice(l) for _ in range(k)]))(list(range(1, n)), chk.scale(3, 12)):
+            k = 1 + r.below(n - 1); k2 = 1 + r.below(n - 1); m = r.bits(256)
+            Y = sg.mul(y, sg.G); X = sg.mul(d, sg.G)
+            t = sg.adaptor_encrypt(d, Y, m % n, k, k2)
+            add('adaptor_encrypt #2 %s %s %s %s' % (h32(d), pk_obj(Y), h32(m), (b32(k) + b32(k2) + b'\x07').hex()), 'small_encrypt_custom',
+                ('#1 ' + ser162(*t).hex()) if t else '#0 ' + '00' * 162)
+            add('adaptor_encrypt #2 %s %s %s %s' % (h32(enc(d)), pk_obj(Y), h32(m), (b32(k) + b32(k2) + b'\x07').hex()), 'small_encrypt_seckey_reencoded', '#0 ' + '00' * 162)
+            add('adaptor_encrypt #2 %s %s %s %s' % (h32(d), pk_obj(Y), h32(m), (b32(enc(k)) + b32(enc(k2)) + b'\x07').hex()), 'small_encrypt_nonces_reencoded',
+                ('#1 ' + ser162(*t).hex()) if t else '#0 ' + '00' * 162)
+            add('adaptor_encrypt #%d %s %s %s %s' % (r.below(2), h32(d), pk_obj(Y), h32(m), opt(None if r.chance(1, 2) else r.bytes(32))), 'small_encrypt_default')
+            if t is None: continue
+            R, Rp, sp, e, s = t
+            def V(sp_, e_, s_, msg, cls, exp): add('adaptor_verify %s %s %s %s' % ((ser33(R) + ser33(Rp) + b32(sp_) + b32(e_) + b32(s_)).hex(), pk_obj(X), h32(msg), pk_obj(Y)), cls, None if exp is None else '#%d' % exp)
+            V(sp, e, s, m, 'small_verify_honest', 1)
+            V(sp, e, s, enc(m % n), 'small_verify_msg_reencoded', 1)
+            V(sp, enc(e), s, m, 'small_verify_e_reencoded_accepted', 1)          # e is reduced silently
+            V(sp, e, enc(s), m, 'small_verify_valid_proof_s_reencoded', 0)       # the DLEQ response must be < n
+            V(enc(sp), e, s, m, 'small_verify_valid_sp_reencoded', 0)            # s' must be < n
+            V(sp, e, (s + 1) % n, m, 'small_verify_s_plus_1', None)              # a wrong response passes with probability 1/13 here
+            if (sp + 1) % n: V((sp + 1) % n, e, s, m, 'small_verify_sp_plus_1', 0)
+            V(sp, e, s, (m + 1) & TOP, 'small_verify_wrong_msg', 0)
+            sig = ser162(R, Rp, sp, e, s); sigr = R[0] % n
+            ss = sp * inv(y, n) % n; ss = ss if ss <= n // 2 else n - ss
+            add('adaptor_decrypt %s %s' % (h32(y), sig.hex()), 'small_decrypt', '#1 ' + h32(sigr) + h32(ss))
+            add('adaptor_decrypt %s %s' % (h32(enc(y)), sig.hex()), 'small_decrypt_key_reencoded', '#0 ' + '00' * 64)
+            add('adaptor_decrypt %s %s' % (h32(y), (sig[:66] + b32(enc(sp)) + sig[98:]).hex()), 'small_decrypt_sp_reencoded', '#0 ' + '00' * 64)
+            add('adaptor_recover %s%s %s %s' % (h32(sigr), h32(ss), sig.hex(), pk_obj(Y)), 'small_recover', '#1 ' + h32(y))
+            add('adaptor_recover %s%s %s %s' % (h32(sigr), h32(n - ss), sig.hex(), pk_obj(Y)), 'small_recover_negated_s', '#1 ' + h32(y))
+            add('adaptor_recover %s%s %s %s' % (h32((sigr + 1) % n), h32(ss), sig.hex(), pk_obj(Y)), 'small_recover_r_mismatch', '#0')
+            add('adaptor_recover %s%s %s %s' % (h32(sigr), h32(ss), (sig[:66] + b32(enc(sp)) + sig[98:]).hex(), pk_obj(Y)), 'small_recover_sp_reencoded', '#0')
+    return sg, cases, expect
+
 def gen(chk, impl=None):
     g = Gen(chk)
     gen_encrypt(g); gen_nonce(g)
@@ -325,4 +368,13 @@ def run(chk):
         nexp += 1
         if ri[idx] != want and len(chk.violations) < 20:
             chk.violations.append({'kind': 'correspondence', 'class': 'expectation:' + chk.cases[idx][1], 'case': chk.cases[idx][0], 'impl': ri[idx], 'model': rm[idx], 'expected': want})
+    # the repository's own order-13 test group: re-encodings v + 13*j of the scalars of VALID adaptor signatures
+    impl13 = vlib.build_impl(chk.dir, name='impl13', flags=['-DEXHAUSTIVE_TEST_ORDER=13'])
+    sg, cases13, expect13 = gen_small_group(chk)
+    ri13, rm13 = chk.correspond(impl13, model, 'ecdsa_adaptor api, EXHAUSTIVE_TEST_ORDER=13 build vs model on the order-13 group', model_extra=sg.params(), cases=cases13)
+    for idx, want in expect13.items():
+        nexp += 1
+        if ri13[idx] != want and len(chk.violations) < 20:
+            chk.violations.append({'kind': 'correspondence', 'class': 'expectation:' + cases13[idx][1], 'case': cases13[idx][0], 'impl': ri13[idx], 'model': rm13[idx], 'expected': want,
+                                   'note': 'small group: build the harness with -DEXHAUSTIVE_TEST_ORDER=13, run the model with ' + ' '.join(sg.params())})
     chk.notes.append('%d cases carried an independently computed expected result (all met: %s)' % (nexp, not any(v.get('expected') for v in chk.violations)))
